@@ -31,6 +31,10 @@ def gen_sets(ctx):
     sets.append(P.PSet({deep: L.gen_content(rng, "random", 30), "short": b"s"}, 4, 2, tag="long name (%d bytes)" % len(deep)))
     # twelve files
     sets.append(P.PSet({"f%02d" % i: L.gen_content(rng, "random", rng.randrange(1, 40)) for i in range(12)}, 8, 5, tag="12 files"))
+    # slice sizes that are not a multiple of 16, split over several goroutines: the workers' byte ranges are multiples of 16
+    # and the last one is a short tail (slice 100 / 8 workers: 6 x 16 + 4; 36 / 3: 16 + 16 + 4; 132 / 8; 52 / 4; 20 / 2)
+    for S_, g_ in ((100, 8), (36, 3), (132, 8), (52, 4), (20, 2), (68, 16)):
+        sets.append(P.PSet({"t.bin": L.gen_content(rng, "random", 3 * S_ + 5), "u": L.gen_content(rng, "random", S_ - 1)}, S_, 3, g=g_, tag="slice %d x %d goroutines" % (S_, g_)))
     if thorough:
         sets.append(P.PSet({"huge.bin": L.gen_content(rng, "random", 4 * 4000)}, 4, 4, g=7, tag="4000 slices"))
     return sets
